@@ -649,3 +649,24 @@ Proof.
     + eexists; split; [left; reflexivity|discriminate].
     + intros th [<-|[<-|[]]] _; apply blocked_w; vm_compute; reflexivity.
 Qed.
+
+(** The shape of the serverLock finding: a thread re-acquires a read lock it
+    already holds while a writer has announced itself in between.  Writer
+    preference makes the second RLock wait for the writer, which waits for the
+    first RLock: the machine deadlocks with a single lock. *)
+Example reentrant_read_deadlock_possible :
+  exists s,
+    reachable (init [[Acq "l" R; Acq "l" R; Rel "l" R; Rel "l" R];
+                     [Acq "l" W; Rel "l" W]]) s /\
+    deadlocked s.
+Proof.
+  eexists; split.
+  - unfold init; simpl.
+    eapply reach_front. { apply step_fst; apply ts_acq_r; reflexivity. }
+    eapply reach_front. { apply step_snd; apply ts_announce. }
+    apply reach_refl.
+  - split.
+    + eexists; split; [left; reflexivity|discriminate].
+    + intros th [<-|[<-|[]]] _ (lt' & th' & Hs); inversion Hs; subst;
+        match goal with H : _ = _ |- _ => vm_compute in H; discriminate H end.
+Qed.
